@@ -22,6 +22,9 @@ Input : [debug, [step, ...]]
   v    = a value token: VALUES[v] for v < len(VALUES) (objects with a hostile ==, falsy-but-valid values), else the int v.
          "run returns the value f returned or its Deferred fired with" is about the IDENTITY of the value: the harness reports
          the token of the object that came back, found with `is`.
+  e    = a failure token: the Deferred fails with / f raises `failure_of(e)`, a KeyError carrying e whose INSTANCE is falsy for
+         e % 3 == 1 (a subclass with __bool__ returning False) and e % 3 == 2 (a subclass with __len__ returning 0): the truth value of
+         an exception is nothing the Spinner may look at (seed C14-h did, in the runner).
 Trace : [obs, ...]   (see TTV/Drv/C15.lean)
   obs  = ['run', result, events, reentries, junk, pending, sels, running, stopRestored, sigBefore, sigAfter, elapsed]
        | ['cleared', junk] | ['sigs', handlers now] | 'swapped'
@@ -83,6 +86,21 @@ def _values():
 VALUES = _values()                                          # value token v < len(VALUES) -> VALUES[v]; a larger token is the int itself
 VALUE_NAMES = ['anything', 'arraylike', 'None', '0', 'empty-str', 'empty-list', 'False', '0.0', 'mock.ANY', 'empty-tuple', 'falsy-object',
                'empty-dict']
+
+
+class KeyErrorNoBool(KeyError):
+    def __bool__(self):
+        return False
+
+
+class KeyErrorEmpty(KeyError):
+    def __len__(self):
+        return 0
+
+
+def failure_of(e):
+    """the exception of failure token e: a KeyError carrying e; for e % 3 == 1 / 2 its instance is falsy (by __bool__ / by __len__)"""
+    return (KeyError, KeyErrorNoBool, KeyErrorEmpty)[e % 3](e)
 
 
 def value_of(v):
@@ -167,7 +185,8 @@ class C15(Prop):
         'extra iterations reaching the real reactor.stop; TimeoutError\'s message calling a raising __repr__',
         'values are opaque tokens in the model (it never looks at them); the harness maps a token to a Python object and maps the object '
         'that run() returned back with `is` (identity, never ==), so "returns the value f returned or its Deferred fired with" is '
-        'checked as identity for objects with a hostile == and for falsy values',
+        'checked as identity for objects with a hostile == and for falsy values; a failure token e is a KeyError carrying e whose instance '
+        'is falsy for e % 3 == 1 (__bool__) and e % 3 == 2 (__len__ returning 0): the truth value of an exception is invisible to the model',
         'the reactor loop, DelayedCall ordering/cancellation and Deferred callback chaining (twisted) are modelled (TTV/Model/Reactor.lean), '
         'not verified; the correspondence runs on harness/vreactor.py (a twisted Clock with the iteration semantics of '
         'ReactorBase.runUntilCurrent) except for the real-reactor scenarios',
@@ -347,7 +366,7 @@ class C15(Prop):
                 elif kind == 'fail':
                     def go():
                         try:
-                            d.errback(KeyError(a[1]))
+                            d.errback(failure_of(a[1]))
                         except AlreadyCalledError:
                             pass
                 elif kind in ('fireold', 'failold'):
@@ -357,7 +376,7 @@ class C15(Prop):
                                 if kind == 'fireold':
                                     olds[-a[1]].callback(value_of(a[2]))
                                 else:
-                                    olds[-a[1]].errback(KeyError(a[2]))
+                                    olds[-a[1]].errback(failure_of(a[2]))
                             except AlreadyCalledError:
                                 pass
                 elif kind == 'stop':
@@ -422,7 +441,7 @@ class C15(Prop):
                     return d
                 if term[0] == 'ret':
                     return value_of(term[1])
-                raise KeyError(term[1])
+                raise failure_of(term[1])
 
             stop0 = r.stop
             sig_before = self._cur_sigs()
@@ -513,7 +532,8 @@ class C15(Prop):
     def oblig_grid(self):
         """_OBLIGATORY_REACTOR_ITERATIONS = 0..3 x leftovers of a run whose f returns at once (the loop does not iterate, so what f scheduled is
         still there): calls that are due (run by the iterations) or not, that schedule further calls (chains, due in the next iteration or
-        never) or register selectables - afterwards nothing may be pending, and the next run must not see anything of it"""
+        never) or register selectables - afterwards nothing may be pending, and the next run must not see anything of it; and x
+        interrupted runs with timeout 0, whose own timeout call is still pending and due when _clean iterates"""
         out = []
         chains = [['spawn', 0, ['spawn', 0, 'noop']], ['spawn', 5, 'noop'], ['spawn', 0, 'addsel'], ['spawn', 0, ['spawn', 3, 'addsel']],
                   ['spawn', 1, ['spawn', 0, ['spawn', 0, 'noop']]], 'addsel', 'noop']
@@ -524,6 +544,13 @@ class C15(Prop):
                         out.append([False, [['run', 4, [], [['later', d, c], ['later', 0, 'noop']], term, n], 'clear', ['run', 2, [], [], ['ret', 9]]]])
                 out.append([False, [['run', 4, [[0, c]], [['later', 0, c]], ['ret', 3], n], 'clear', ['run', 2, [], [['later', 1, ['fire', 4]]], 'deferred', n]]])
             out.append([False, [['run', 3, [], [['later', 1, ['fire', 2]], ['later', 5, 'noop']], 'deferred', n], 'clear', ['run', 2, [[1, 'stop']], [], 'deferred', n]]])
+            # an interrupted run whose own timeout call is already due when _clean iterates: the iterations run it, after the result
+            # (NoResultError) has been read (seed C15-h cleaned first); the next run must not see the stored TimeoutError
+            nxt = ['clear', ['run', 2, [], [['later', 1, ['fire', 4]]], 'deferred', n]]
+            for pre, body in (([], [['now', 'stop']]), ([[0, 'stop']], []), ([], [['now', 'stop'], ['later', 0, 'noop']]),
+                              ([[0, 'stop'], [0, 'addsel']], [['later', 0, 'noop']])):
+                out.append([False, [['run', 0, pre, body, 'deferred', n]] + nxt])
+                out.append([False, [['run', 0, pre, body, 'deferred', n], ['run', 0, [], [], 'deferred', n]]])
         return out
 
     def late_grid(self):
@@ -773,6 +800,8 @@ class C15(Prop):
             f.append('result:' + (res if isinstance(res, str) else res[0]))
             if isinstance(res, list) and res[0] == 'value' and isinstance(res[1], int):
                 f.append('value:' + (VALUE_NAMES[res[1]] if res[1] < len(VALUES) else 'int'))
+            if isinstance(res, list) and res[0] == 'raised' and isinstance(res[1], int):
+                f.append('raised-instance:' + ('truthy', 'falsy-by-bool', 'falsy-by-len')[res[1] % 3])
             f.append('term:' + (sc[4] if isinstance(sc[4], str) else sc[4][0]))
             f.append('obligatory-iterations=%d' % (sc[5] if len(sc) > 5 else 0))
             if len(sc) > 5 and sc[5] > 0 and any(isinstance(e[1], int) and e[1] >= len(sc[2]) + len(sc[3]) for e in o[2]):
